@@ -92,6 +92,15 @@ def run(ctx):
             if p is not None:
                 _, calls, _ = b.slice_back([p[0]], stop_call=lambda cc: cc.name not in ("Try::branch", "Result::map_err", "IntoFuture::into_future", "Future::poll", "Pin::new_unchecked", "core::future::get_context", "Pin::new"))
                 causes = [(cb, cc, ct) for (cb, cc, ct) in calls if cc.name not in ("Try::branch", "Result::map_err", "IntoFuture::into_future", "Future::poll", "Pin::new_unchecked", "core::future::get_context", "Pin::new")]
+            # `x.await?` where x is not the result of a call made here but a future that *arrived as data* from the loop's own
+            # source (quinn's `Incoming`, a JoinHandle, ...): the exit is decided by that per-flow future, not by the source
+            carried = _awaited_carried_future(b, p[0], src_results) if p is not None else None
+            if carried is not None:
+                leaving_vals = [v for v, tgt in t["arms"] if tgt == y] + (["otherwise"] if t["otherwise"] == y else [])
+                ctx.ob("L1", b.defp, f"exit:{src}:await of `{carried}`", loc(t["sp"]), False,
+                       f"the result of awaiting `{carried}` — a per-flow future handed out by {src} (e.g. a connection handshake) — leaves the service loop "
+                       f"(`?`/break): one failing peer ends the service for all, and while it is pending nobody else is accepted")
+                continue
             # which value of the switch leaves?
             leaving_vals = [v for v, tgt in t["arms"] if tgt == y] + (["otherwise"] if t["otherwise"] == y else [])
             verdict, why = classify_exit(b, body, causes, src_results, leaving_vals, t)
@@ -101,6 +110,14 @@ def run(ctx):
         # ---------------- L2 ---------------------------------------------------------------------
         for (blk, c, t) in b.calls():
             if blk not in body:
+                continue
+            if c.name == "IntoFuture::into_future":
+                nm = _carried(b, t, src_results)
+                # select!/join! expansions move their own branch futures out of a tuple: not user-written awaits
+                if nm and not nm.startswith("_"):
+                    ctx.ob("L2", b.defp, f"inline-handshake:await of `{nm}`", loc(t["sp"]), False,
+                           f"`{nm}`, a per-flow future handed out by {src} (a connection handshake), is awaited in the listener's own task: "
+                           f"one stalled peer blocks every other flow of this service loop")
                 continue
             dial = None
             if c.name in DIAL_NAMES:
@@ -184,6 +201,51 @@ def classify_exit(b, body, causes, src_results, leaving_vals, t):
     if locs & src_results:
         return False, f"failure of `{shown}` — an operation on a received connection/datagram — propagates out of the service loop (`?`/break): one bad flow ends the service for all"
     return True, f"exit caused by `{shown}` whose operands are loop-invariant (configuration): not a per-flow fault"
+
+
+PASS_AWAIT = ("Try::branch", "Result::map_err", "Future::poll", "Pin::new_unchecked", "core::future::get_context", "Pin::new")
+
+
+def _carried(b, ct, src_results):
+    """`ct` is an IntoFuture::into_future call: name of the awaited future if it was moved out of data deriving from the loop's source"""
+    if not ct["args"]:
+        return None
+    pl = op_place(ct["args"][0])
+    if pl is None:
+        return None
+    cur = pl[0]
+    seen = set()
+    while cur not in seen:
+        seen.add(cur)
+        ds = b.defs().get(cur, [])
+        if any(d[0] == "call" for d in ds):
+            return None
+        nxt = None
+        for d in ds:
+            if d[0] == "assign" and d[3]["rv"]["k"] in ("use", "cast"):
+                q = op_place(d[3]["rv"].get("op"))
+                if q is not None:
+                    nxt = q
+        if nxt is None:
+            return None
+        if nxt[1]:      # moved out of a field / enum payload: carried as data
+            if nxt[0] in src_results or cur in src_results:
+                return b.local_name(pl[0]) or b.local_name(cur) or f"_{pl[0]}"
+            return None
+        cur = nxt[0]
+    return None
+
+
+def _awaited_carried_future(b, local, src_results):
+    """If the value tested derives from polling a future that was not created by a call in this body but moved out of data that
+    derives from the loop's source, return a display name for that future; else None."""
+    _, calls, _ = b.slice_back([local], stop_call=lambda cc: cc.name not in PASS_AWAIT)
+    for (cb, cc, ct) in calls:
+        if cc.name == "IntoFuture::into_future":
+            nm = _carried(b, ct, src_results)
+            if nm:
+                return nm
+    return None
 
 
 def _direct_consumers(b, local):
